@@ -244,6 +244,8 @@ pub unsafe extern "C" fn jsonnet_evaluate_file(
 	filename: *const c_char,
 	error: &mut c_int,
 ) -> *const c_char {
+	// Top level arguments and external code are evaluated through the entered state (`with_state`)
+	let _entered = vm.state.try_enter();
 	let filename = unsafe { parse_path(CStr::from_ptr(filename)) };
 	match vm
 		.state
@@ -278,6 +280,8 @@ pub unsafe extern "C" fn jsonnet_evaluate_snippet(
 	snippet: *const c_char,
 	error: &mut c_int,
 ) -> *const c_char {
+	// Top level arguments and external code are evaluated through the entered state (`with_state`)
+	let _entered = vm.state.try_enter();
 	let filename = unsafe { CStr::from_ptr(filename) };
 	let snippet = unsafe { CStr::from_ptr(snippet) };
 	match vm
@@ -337,6 +341,8 @@ pub unsafe extern "C" fn jsonnet_evaluate_file_multi(
 	filename: *const c_char,
 	error: &mut c_int,
 ) -> *const c_char {
+	// Top level arguments and external code are evaluated through the entered state (`with_state`)
+	let _entered = vm.state.try_enter();
 	let filename = unsafe { parse_path(CStr::from_ptr(filename)) };
 	match vm
 		.state
@@ -365,6 +371,8 @@ pub unsafe extern "C" fn jsonnet_evaluate_snippet_multi(
 	snippet: *const c_char,
 	error: &mut c_int,
 ) -> *const c_char {
+	// Top level arguments and external code are evaluated through the entered state (`with_state`)
+	let _entered = vm.state.try_enter();
 	let filename = unsafe { CStr::from_ptr(filename) };
 	let snippet = unsafe { CStr::from_ptr(snippet) };
 	match vm
@@ -419,6 +427,8 @@ pub unsafe extern "C" fn jsonnet_evaluate_file_stream(
 	filename: *const c_char,
 	error: &mut c_int,
 ) -> *const c_char {
+	// Top level arguments and external code are evaluated through the entered state (`with_state`)
+	let _entered = vm.state.try_enter();
 	let filename = unsafe { parse_path(CStr::from_ptr(filename)) };
 	match vm
 		.state
@@ -447,6 +457,8 @@ pub unsafe extern "C" fn jsonnet_evaluate_snippet_stream(
 	snippet: *const c_char,
 	error: &mut c_int,
 ) -> *const c_char {
+	// Top level arguments and external code are evaluated through the entered state (`with_state`)
+	let _entered = vm.state.try_enter();
 	let filename = unsafe { CStr::from_ptr(filename) };
 	let snippet = unsafe { CStr::from_ptr(snippet) };
 	match vm
